@@ -16,6 +16,7 @@
 #   limitations under the License.
 #
 import logging
+from queue import Empty
 from multiprocessing import Process, Queue, Pipe
 from multiprocessing.connection import Connection
 from typing import Any, Dict, Iterable, List, Optional, Tuple, Union, cast
@@ -23,6 +24,7 @@ from typing import Any, Dict, Iterable, List, Optional, Tuple, Union, cast
 import pysmt
 from pysmt.solvers.solver import IncrementalTrackingSolver, SolverOptions, Solver, Model
 from pysmt.decorators import clear_pending_pop
+from pysmt.exceptions import SolverReturnedUnknownResultError
 from pysmt.logics import convert_logic_from_string, Logic
 from pysmt.fnode import FNode
 from pysmt.utils import assert_not_none
@@ -157,7 +159,18 @@ class Portfolio(IncrementalTrackingSolver):
             _debug("Started instance of %s", sname)
 
         while True:
-            (sname, res) = signaling_queue.get(block=True)
+            try:
+                (sname, res) = signaling_queue.get(block=True, timeout=0.5)
+            except Empty:
+                # Do not wait forever for solvers that cannot answer
+                # anymore: they failed or exited without reporting
+                if any(p.is_alive() for p in processes):
+                    continue
+                # Nobody is listening on the control pipe
+                self._ctrl_pipe = None
+                raise SolverReturnedUnknownResultError(
+                    "All the solvers of the portfolio terminated without "
+                    "reporting a result")
             if isinstance(res, BaseException):
                 if cast(PortfolioOptions, self.options).exit_on_exception:
                     # Close all solvers and raise exception
